@@ -809,3 +809,16 @@ package profile
 //@   ensures comments: len(p.commentX) == len(p.Comments)
 //@   loop 14
 //@     invariant 0 <= $i && $i <= len(p.Comments) && len(p.commentX) == $i && p != nil
+
+// ---- C14 (strengthened after seeded change contention-period-scaling-requires-cpuhz) ----
+// parseContentionSample: the contention count is multiplied by the sampling period whenever a period is given,
+// whether or not the cycle frequency is known; the delay is only rescaled when both are known.
+//@ func parseContentionSample arith bv floatabs=yes
+//@   uses profile.errs
+//@   ensures two: result2 == nil ==> len(result0) == 2
+//@   ensures count: result2 == nil ==> result0[0] == ite(period > 0, callres("ParseInt#2", 0) * period, callres("ParseInt#2", 0))
+//@   ensures delay_raw: result2 == nil && !(period > 0 && cpuHz > 0) ==> result0[1] == callres("ParseInt#1", 0)
+
+// package variables holding sentinel errors are non-nil once the package is initialised
+//@ func init nosafety
+//@   ensures errs: errUnrecognized != nil && errMalformed != nil
